@@ -42,7 +42,7 @@ inductive Outcome (α : Type) where
   | ok (a : α)
   | err (e : Err)
   | panic (tag : String)
-  deriving Repr
+  deriving Repr, DecidableEq
 
 namespace Outcome
 @[inline] def bind {α β : Type} (x : Outcome α) (f : α → Outcome β) : Outcome β :=
@@ -192,35 +192,24 @@ def Info.toEncBytes : Info → Bytes
   | .imp i => i.toEncBytes
   | .conv c => c.toEncBytes
 
-def isCont (b : Nat) : Bool := 0x80 ≤ b && b ≤ 0xBF
-
 /-- `String::from_utf8(..).is_ok()` (`core::str::run_utf8_validation`): shortest-form UTF-8, no
-surrogates, at most U+10FFFF. -/
-def utf8Valid : Bytes → Bool
-  | [] => true
-  | b :: rest =>
-    if b < 0x80 then utf8Valid rest
-    else if 0xC2 ≤ b ∧ b ≤ 0xDF then
-      match rest with
-      | c :: r => isCont c && utf8Valid r
-      | _ => false
-    else if 0xE0 ≤ b ∧ b ≤ 0xEF then
-      match rest with
-      | c :: d :: r =>
-        (if b = 0xE0 then 0xA0 ≤ c && c ≤ 0xBF
-         else if b = 0xED then 0x80 ≤ c && c ≤ 0x9F
-         else isCont c) && isCont d && utf8Valid r
-      | _ => false
-    else if 0xF0 ≤ b ∧ b ≤ 0xF4 then
-      match rest with
-      | c :: d :: e :: r =>
-        (if b = 0xF0 then 0x90 ≤ c && c ≤ 0xBF
-         else if b = 0xF4 then 0x80 ≤ c && c ≤ 0x8F
-         else isCont c) && isCont d && isCont e && utf8Valid r
-      | _ => false
+surrogates, at most U+10FFFF. State: number of continuation bytes still owed by the current scalar
+and the admissible range of the next one. -/
+def utf8Go : (need lo hi : Nat) → Bytes → Bool
+  | need, _, _, [] => need == 0
+  | 0, _, _, b :: rest =>
+    if b < 0x80 then utf8Go 0 0x80 0xBF rest
+    else if 0xC2 ≤ b ∧ b ≤ 0xDF then utf8Go 1 0x80 0xBF rest
+    else if b = 0xE0 then utf8Go 2 0xA0 0xBF rest
+    else if b = 0xED then utf8Go 2 0x80 0x9F rest
+    else if 0xE1 ≤ b ∧ b ≤ 0xEF then utf8Go 2 0x80 0xBF rest
+    else if b = 0xF0 then utf8Go 3 0x90 0xBF rest
+    else if b = 0xF4 then utf8Go 3 0x80 0x8F rest
+    else if 0xF1 ≤ b ∧ b ≤ 0xF3 then utf8Go 3 0x80 0xBF rest
     else false
-termination_by l => l.length
-decreasing_by all_goals simp_wf <;> omega
+  | n + 1, lo, hi, b :: rest => if lo ≤ b ∧ b ≤ hi then utf8Go n 0x80 0xBF rest else false
+
+def utf8Valid (s : Bytes) : Bool := utf8Go 0 0x80 0xBF s
 
 /-- `HybridConversionInfo::new`: ASCII and (F7) NUL-free. The site is given by its UTF-8 bytes. -/
 def ConvInfo.new (keyId : Nat) (site ts eps sens : Bytes) : Outcome ConvInfo :=
